@@ -35,7 +35,7 @@ ANCHORS = ["decaylanguage.modeling.decay:ModelDecay.list_structure", "decaylangu
 WORKERS = {"quick": 8, "thorough": 16}
 WATCHDOG = {"quick": 900, "thorough": 3300}
 WTESTS = {"groups": ['list_structure'], "tests": ['tests/test_goofit.py', 'tests/test_convert.py']}
-REQUIRED = {"two-resonances-of-the-same-name-in-one-amplitude": 2, "direct-call:as-read": 10, "direct-call:reversed-in-place": 5, "direct-call:two-swapped-in-place": 5, "C18.direct_call_permutations_match_event_type_at_the_call": 30, "enum:all-shapes-and-patterns": 1, "enum:permutations>=4": 100, "enum:leaf-not-in-event-raises": 10,
+REQUIRED = {"amplitude-with-coupling-exactly-zero": 2, "two-resonances-of-the-same-name-in-one-amplitude": 2, "direct-call:as-read": 10, "direct-call:reversed-in-place": 5, "direct-call:two-swapped-in-place": 5, "C18.direct_call_permutations_match_event_type_at_the_call": 30, "enum:all-shapes-and-patterns": 1, "enum:permutations>=4": 100, "enum:leaf-not-in-event-raises": 10,
             **{f"structure:{f}{w}": 2 for f, w in A.STRUCTURES}, **{f"lineshape:{k}": 4 for k in A.LS_KINDS}, "topology:two-resonances": 4, "topology:cascade": 4,
             "language:cpp": 10, "language:python": 10, "event:4-permutations": 2, "event:0": 2, "event:1": 2, "event:2": 2, "event:4": 2, "event:rearranged": 2, "event:particle-three-times(6-permutations)": 2, "event:identical-particles-not-adjacent": 2, "same-amplitudes-other-event-order-same-process": 2, "expanded-by-name": 2, "partial-line-referred-to-from>=2-places": 1, "two-body-vertex-written-in-reverse-order": 2,
             "C18.list_structure.equals_bruteforce": 1000}
@@ -163,6 +163,8 @@ def check_file(ctx, model, style_seed, workload="gen"):
 
     if any(len(t.kids) == 2 and t.kids[0].kids is not None and t.kids[1].kids is not None and t.kids[0].name == t.kids[1].name for _, ts in groups for t in ts):
         ctx.hit("two-resonances-of-the-same-name-in-one-amplitude")
+    if any(ln.get("switched_off") for ln in model["lines"]):
+        ctx.hit("amplitude-with-coupling-exactly-zero")
     if any(getattr(ln["node"], "reversed_vertex", False) for ln in model["lines"]):
         ctx.hit("two-body-vertex-written-in-reverse-order")
     uses = []
